@@ -15,6 +15,8 @@ import (
 	"fmt"
 	"io"
 	"net"
+	"os"
+	"strconv"
 	"sync"
 	"time"
 
@@ -24,7 +26,14 @@ import (
 	xhpack "golang.org/x/net/http2/hpack"
 )
 
-const watchdog = 30 * time.Second
+// watchdog bounds every wait; a hit makes the case inconclusive, never a violation.
+// H2A_WATCHDOG_MS shortens it for development runs only.
+var watchdog = func() time.Duration {
+	if v, err := strconv.Atoi(os.Getenv("H2A_WATCHDOG_MS")); err == nil && v > 0 {
+		return time.Duration(v) * time.Millisecond
+	}
+	return 30 * time.Second
+}()
 
 type hfield struct{ Name, Value string }
 
